@@ -557,8 +557,13 @@ static size_t bundle_ring_length(ring_t *ring)
                   deref(pos+1, ring) << (8*2) |
                   deref(pos+2, ring) << (8*1) |
                   deref(pos+3, ring) << (8*0);
-        if(advance)
+        if(advance) {
+            //an element that extends past the buffer cannot be a full bundle
+            //(also keeps pos from wrapping around and looping forever)
+            if(advance > ring[0].len+ring[1].len-pos)
+                return 0;
             pos += 4+advance;
+        }
     } while(advance);
 
     return pos <= (ring[0].len+ring[1].len) ? pos : 0;
